@@ -53,7 +53,19 @@ RULE = ("per task (compress, condense, repack, join with 2-3 inputs, split into 
         "hard links of inputs by inode). In addition, per task using setup_task_paths, the output "
         "path is given as an alias of an input (same, directory symlink, file symlink, '..', "
         "relative, missing suffix, hard link, input through the link, second join input): inputs "
-        "must be byte-identical whether or not the task succeeds. One evaluation = one injected run; "
+        "must be byte-identical whether or not the task succeeds; the same with the task's TEMPORARY "
+        "path `<out>.rtdc~` coinciding with an input (F64: as the input's own name with "
+        "check_suffix=False, as a symbolic link to it, as a hard link of it; input given by its "
+        "ordinary or by the temporary name) - where output or temporary IS an input the model "
+        "expects a refusal before any mutation (`refused_untouched`). Kill points of the quick tier "
+        "always contain the operation immediately before and immediately after every rename and "
+        "every close that follows the first writing handle (`complete_after_rename`, "
+        "`output_never_open`). Every recorded trace of a successful run (baseline and re-runs) is "
+        "matched against its task's trace template (`copy/compress/join/split/tdmsTrace` of "
+        "Model/CliTasks.lean, parameters read off the trace: stale flags, writes per session, probed "
+        "and appended inputs, parts): instance -> the template theorems cover it for all parameter "
+        "values; not an instance -> NOTE 'template drift', the trace is still judged by Conforms. "
+        "One evaluation = one injected run; "
         "distinct = distinct (task, input, k, fault kind) with at least one write before k.")
 TRUSTED_BASE = [
     "modelled, not verified: POSIX rename atomicity, HDF5 flushing on close, the completeness of "
@@ -63,11 +75,17 @@ TRUSTED_BASE = [
     "the tracer)",
     "the theorem is about traces; that the tasks' traces conform is checked on every run for the "
     "generated inputs (correspondence), not proved for all inputs",
+    "task templates: proved for ALL parameter values (numbers of writes, parts, probed/appended "
+    "inputs, stale files) that every instance conforms and is fresh; that the real tasks produce "
+    "instances is checked per run (the parameters are read off the recorded trace by "
+    "harness/c10.py:template_params, Lean expands the template and compares)",
 ]
 ASSUMPTIONS = ["rename(2) is atomic; a closed HDF5 file is completely on disk",
                "a failing operation is followed only by the clean-up of with/finally blocks"]
-NOT_PROVED = ["conformance of the six task implementations for all inputs (checked per run on "
-              "generated inputs and by fault enumeration)",
+NOT_PROVED = ["that the six task implementations produce an instance of their trace template for all "
+              "inputs (the templates themselves are proved conforming and fresh for all parameter "
+              "values; instance-hood is checked per run on generated inputs, conformance of "
+              "non-instances by Conforms on the recorded trace and by fault enumeration)",
               "content of a temporary file after a kill (only ever under the temporary name)",
               "power loss / fsync ordering"]
 
@@ -249,13 +267,14 @@ def run_task(spec, d, ins, outs):
     common.import_dclab()
     from dclab import cli
     task = spec["task"]
+    kw = {} if spec.get("check_suffix", True) else {"check_suffix": False}
     if task == "compress":
-        cli.compress(path_in=ins[0], path_out=outs[0])
+        cli.compress(path_in=ins[0], path_out=outs[0], **kw)
     elif task == "condense":
         cli.condense(path_in=ins[0], path_out=outs[0],
-                     store_ancillary_features=spec["ancillaries"])
+                     store_ancillary_features=spec["ancillaries"], **kw)
     elif task == "repack":
-        cli.repack(path_in=ins[0], path_out=outs[0], strip_logs=spec["strip_logs"])
+        cli.repack(path_in=ins[0], path_out=outs[0], strip_logs=spec["strip_logs"], **kw)
     elif task == "join":
         cli.join(paths_in=list(ins), path_out=outs[0])
     elif task == "split":
@@ -375,15 +394,34 @@ def classify(path, stale_sha, base_summary):
     return "c"
 
 
+def must_kills(rng, ops, ren):
+    """kill points every tier uses: immediately before and immediately after EVERY rename and EVERY
+    close that follows the first writing handle (the window between close and rename, and between
+    rename and a late close, of every output: `complete_after_rename`, `output_never_open`).
+    Closes of the read-only probing phase before anything is written: two of them."""
+    n = len(ops)
+    opens = [i for i, op in enumerate(ops) if op[0] in ("create", "openAppend")]
+    closes = [i for i, op in enumerate(ops) if op[0] == "close"]
+    first_w = opens[0] if opens else n
+    must = set()
+    for i in ren + [c for c in closes if c > first_w]:
+        must.update((i, i + 1))
+    early = [c for c in closes if c < first_w]
+    for i in rng.sample(early, min(2, len(early))):
+        must.update((i, i + 1))
+    return {k for k in must if 0 <= k < n}
+
+
 def choose_ks(rng, ops, labels, mode, target=40):
     """fault points: (raise-ks, kill-ks).  Stratified: first/last/around every rename, every
     open/close/unlink, and first, last and a random operation of every class of HDF5 object
     written (events, logs, tables, basins, attributes of each) per file; rest random."""
     n = len(ops)
-    if mode == "all":
-        return list(range(n)), sorted(set(rng.sample(range(n), min(n, 12))))
-    labels = list(labels) + [""] * (n - len(labels))
     ren = [i for i, op in enumerate(ops) if op[0] == "rename"]
+    if mode == "all":
+        return list(range(n)), sorted(set(rng.sample(range(n), min(n, 12))) |
+                                      must_kills(rng, ops, ren))
+    labels = list(labels) + [""] * (n - len(labels))
     prio = {0, n - 1}
     for i in ren:
         prio.update((i - 1, i, i + 1, i + 2))
@@ -409,20 +447,116 @@ def choose_ks(rng, ops, labels, mode, target=40):
     ks = prio | set(second)
     others = [k for k in range(n) if k not in ks]
     ks |= set(rng.sample(others, min(len(others), max(0, target - len(ks)))))
-    kills = {rng.randrange(n), rng.randrange(n), n - 1}
-    for i in ren:
-        kills.update((i, i + 1, i + 2))
+    must = must_kills(rng, ops, ren)
     opens = [i for i, op in enumerate(ops) if op[0] in ("create", "openAppend")]
+    extra = {rng.randrange(n), rng.randrange(n), n - 1}
+    for i in ren:
+        extra.add(i + 2)
     for i in opens[-2:]:          # inside and right after the last files opened for writing
-        kills.update((i + 1, i + 3))
-    closes = [i for i, op in enumerate(ops) if op[0] == "close"]
-    for i in closes[-2:]:
-        kills.update((i, i + 1))
-    kills = sorted(k for k in kills if 0 <= k < n)
-    if len(kills) > 10:
-        keep = {k for i in ren[-1:] for k in (i, i + 1, i + 2) if k < n}
-        kills = sorted(keep | set(rng.sample(kills, 10 - len(keep))))
+        extra.update((i + 1, i + 3))
+    extra = sorted(k for k in extra if 0 <= k < n and k not in must)
+    room = max(3, 10 - len(must))
+    if len(extra) > room:
+        extra = rng.sample(extra, room)
+    kills = sorted(must | set(extra))
     return sorted(ks), kills
+
+
+TEMPLATE_OF = {"compress": "compress", "condense": "copy", "repack": "copy", "join": "join",
+               "split": "split", "tdms2rtdc": "tdms"}
+
+
+def template_params(task, outs, temps, toks):
+    """parameters of the task's trace template (lean/DclabModel/Model/CliTasks.lean) read off a
+    recorded trace: stale flags, number of writes per writing session, probed / appended inputs
+    (join), auxiliary files (split).  Best effort — Lean expands the template for these parameters
+    and decides whether the trace is an instance."""
+    n = len(toks)
+    j = 0
+
+    def nwrites(t):
+        nonlocal j
+        c = 0
+        while j < n and toks[j] == f"w{t}":
+            c += 1
+            j += 1
+        return c
+
+    def num(tok):
+        return int(tok[1:])
+
+    if task in ("compress", "condense", "repack", "join"):
+        o, t = outs[0], temps[0]
+        so = st = 0
+        if j < n and toks[j] == f"u{o}":
+            so, j = 1, j + 1
+        if j < n and toks[j] == f"u{t}":
+            st, j = 1, j + 1
+        if task != "join":
+            j += 2                      # openRead input, create temporary
+            n1 = nwrites(t)
+            if task != "compress":
+                return [so, st, n1]
+            j += 3                      # close temporary, close input, openAppend temporary
+            return [so, st, n1, nwrites(t)]
+        probes = []
+        while j + 1 < n and toks[j][0] == "r" and toks[j + 1] == "x" + toks[j][1:]:
+            probes.append(num(toks[j]))
+            j += 2
+        if j >= n or toks[j][0] != "r":
+            return None
+        first = num(toks[j])
+        j += 2                          # openRead first, openAppend temporary
+        n0 = nwrites(t)
+        j += 3                          # close temporary, close first, openAppend temporary
+        n1 = nwrites(t)
+        segs = []
+        while j < n and toks[j][0] == "r":
+            src = num(toks[j])
+            j += 1
+            a = nwrites(t)
+            j += 1                      # close src
+            segs += [src, a, nwrites(t)]
+        return [so, st, n0, n1, first, len(probes)] + probes + segs
+    sessions = {t: [] for t in temps}       # writes per writing session of every temporary
+    for tok in toks:
+        if tok[0] == "a" and num(tok) in sessions:
+            sessions[num(tok)].append(0)
+        elif tok[0] == "w" and sessions.get(num(tok)):
+            sessions[num(tok)][-1] += 1
+    counts = []
+    for t in temps:
+        counts += (sessions[t] + [0, 0])[:2]
+    if task == "split":
+        aux = []
+        j = 1
+        while j < n and toks[j][0] == "r":
+            aux.append(num(toks[j]))
+            j += 1
+        return [len(aux)] + aux + counts
+    if task == "tdms2rtdc":
+        so, st = [], []
+        while j < n and toks[j][0] == "u" and num(toks[j]) in outs:
+            so.append(num(toks[j]))
+            j += 1
+        while j < n and toks[j][0] == "u" and num(toks[j]) in temps:
+            st.append(num(toks[j]))
+            j += 1
+        return [len(so)] + so + [len(st)] + st + counts
+    return None
+
+
+def template_line(task, ins, outs, temps, existing, toks):
+    """`tmpl` request of Drive/C10.lean, or None when no parameters can be read off the trace"""
+    try:
+        ps = template_params(task, outs, temps, toks)
+    except Exception:  # noqa
+        ps = None
+    if ps is None or task not in TEMPLATE_OF:
+        return None
+    lst = lambda xs: ",".join(str(x) for x in xs) if xs else "-"      # noqa: E731
+    return "tmpl %s %s %s %s %s %s %s" % (TEMPLATE_OF[task], lst(ins), lst(outs), lst(temps),
+                                           lst(sorted(set(existing))), lst(ps), lst(toks))
 
 
 def do_case(args):
@@ -480,6 +614,11 @@ def do_case(args):
             lst([roles[p] for p in ins]), lst([roles[p] for p in outs]),
             lst([roles[p] for p in temps]), lst(sorted(set(existing_ids))), lst(tokens))
     rec["line"] = trace_line(existing, toks)
+
+    def tmpl_line(existing_ids, tokens):
+        return template_line(spec["task"], [roles[p] for p in ins], [roles[p] for p in outs],
+                             [roles[p] for p in temps], existing_ids, tokens)
+    rec["tmpl"] = tmpl_line(existing, toks)
     rec["labels"] = {}
     for lab in labels:
         rec["labels"][lab] = rec["labels"].get(lab, 0) + 1
@@ -523,7 +662,10 @@ def do_case(args):
                                for p, h in in_sha.items()),
               "line": None}
         if ops2 is not None:
-            r2["line"] = trace_line(present, encode_trace(ops2, dict(roles)))
+            toks2 = encode_trace(ops2, dict(roles))
+            r2["line"] = trace_line(present, toks2)
+            if status2 == "ok":
+                r2["tmpl"] = tmpl_line(present, toks2)
         rec["results"][-1]["rerun"] = r2
     shutil.rmtree(d, ignore_errors=True)
     return rec
@@ -534,7 +676,13 @@ def do_case(args):
 # output paths that alias an input
 ALIAS_TASKS = ["compress", "condense", "repack", "join"]
 ALIAS_SPELLINGS = ["same", "dir-symlink", "file-symlink", "dotdot", "relative", "relative-dotdot",
-                   "no-suffix", "hard-link", "input-through-link", "second-input"]
+                   "no-suffix", "hard-link", "input-through-link", "second-input",
+                   # the task's TEMPORARY path `<out>.rtdc~` coincides with an input (F64): as the
+                   # input's own name, as a symbolic link to it, as a hard link of it; the input
+                   # given by its ordinary name or by the temporary name (check_suffix=False)
+                   "temp-same", "temp-symlink", "temp-symlink-input", "temp-hard-link",
+                   "temp-hard-link-input"]
+TEMP_AS_INPUT = ("temp-same", "temp-symlink-input", "temp-hard-link-input")
 
 
 def alias_paths(d, spelling):
@@ -552,9 +700,11 @@ def alias_paths(d, spelling):
         "hard-link": str(d / "hard.rtdc"),                      # second name of the same inode
         "input-through-link": str(data / "m.rtdc"),
         "second-input": str(d / "current" / "m2.rtdc"),
-    }[spelling]
+    }.get(spelling, str(data / "x.rtdc"))       # temp-*: the temporary path is data/x.rtdc~
     if spelling == "input-through-link":
         ins[0] = str(d / "current" / "m.rtdc")
+    if spelling in TEMP_AS_INPUT:
+        ins[0] = str(data / "x.rtdc~")
     return ins, out
 
 
@@ -596,7 +746,18 @@ def do_alias_case(args):
         os.link(d / "data" / "m.rtdc", d / "hard.rtdc")
         ins_sp, out_sp = alias_paths(d, spelling)
         ins_sp = ins_sp[:nin]
-        spec = {"task": task, "ancillaries": True, "strip_logs": False}
+        canon_now, shas_now = list(canon), dict(shas)
+        xt = d / "data" / "x.rtdc~"
+        if spelling == "temp-same":              # an input file of its own under the temporary name
+            shutil.copyfile(d / "_backup" / "m.rtdc", xt)
+            canon_now[0] = str(xt)
+            shas_now[str(xt)] = shas[canon[0]]
+        elif spelling.startswith("temp-symlink"):
+            os.symlink(d / "data" / "m.rtdc", xt)
+        elif spelling.startswith("temp-hard-link"):
+            os.link(d / "data" / "m.rtdc", xt)
+        spec = {"task": task, "ancillaries": True, "strip_logs": False,
+                "check_suffix": spelling not in TEMP_AS_INPUT}
         res = d.parent / (d.name + ".res.json")
         if res.exists():
             res.unlink()
@@ -611,7 +772,7 @@ def do_alias_case(args):
                 os.dup2(devnull, 2)
                 os.chdir(d)
                 TRACER.install()
-                TRACER.start(d, inputs=canon[:nin])
+                TRACER.start(d, inputs=canon_now[:nin])
                 try:
                     run_task(spec, d, ins_sp, [out_sp])
                     status = "ok"
@@ -633,21 +794,25 @@ def do_alias_case(args):
         res.unlink()
         ops = [tuple(o) for o in data["ops"]]
         why = None
-        for c in canon[:nin]:
+        for c in canon_now[:nin]:
             if not pathlib.Path(c).exists():
                 why = f"input {pathlib.Path(c).name} no longer exists"
-            elif sha(c) != shas[c]:
+            elif sha(c) != shas_now[c]:
                 why = f"input {pathlib.Path(c).name} changed"
+        for c in ins_sp:                         # the name under which the input was given
+            if why is None and not os.path.lexists(c):
+                why = f"the input path {pathlib.Path(c).name} no longer exists"
         # the output, where it is a file of its own, must be absent or loadable
         outp = pathlib.Path(out_sp if os.path.isabs(out_sp) else d / out_sp)
         if outp.suffix != ".rtdc":
             outp = outp.with_name(outp.name + ".rtdc")
         out_state = "alias"
         real_out = os.path.realpath(outp)
-        if real_out not in canon:
+        if real_out not in canon_now:
             out_state = "a"
             if outp.exists():
-                same_inode = any(os.path.exists(c) and os.path.samefile(outp, c) for c in canon)
+                same_inode = any(os.path.exists(c) and os.path.samefile(outp, c)
+                                 for c in canon_now)
                 try:
                     if not same_inode:
                         summarize(outp)
@@ -655,14 +820,17 @@ def do_alias_case(args):
                 except Exception as e:  # noqa
                     out_state = f"p:not loadable ({type(e).__name__})"
         entry = os.path.join(os.path.realpath(outp.parent), outp.name)
-        roles = {c: i for i, c in enumerate(canon[:nin])}
+        roles = {c: i for i, c in enumerate(canon_now[:nin])}
         outs_r = []
         if entry not in roles and real_out not in roles:
             roles[entry] = len(roles)
             outs_r = [roles[entry]]
+        # the temporary path as a directory entry; when it IS an input (temp-same) the roles are not
+        # well-formed and the model expects a refusal before any mutation (`refused_untouched`)
         temp = entry + "~"
         roles.setdefault(temp, len(roles))
-        existing = list(range(nin)) + ([roles[entry]] if spelling == "hard-link" else [])
+        existing = list(range(nin)) + ([roles[entry]] if spelling == "hard-link" else []) + \
+            ([roles[temp]] if spelling.startswith("temp-") else [])
         toks = encode_trace(ops, roles)
         lst = lambda xs: ",".join(str(x) for x in xs) if xs else "-"      # noqa: E731
         line = "trace %s %s %s %s %s" % (lst(list(range(nin))), lst(outs_r), lst([roles[temp]]),
@@ -733,12 +901,40 @@ def evaluate_alias(ctx, alias_recs, answers):
                                       f"partial file: {r['out'][2:]}", rp)
                 continue
             ans = (answers or {}).get(r["line"])
-            if ans is not None and not ans.startswith("conforms"):
+            if ans is not None:
+                ctx.stat("alias-model:" + ans.split()[0])
+            if ans is not None and not ans.startswith(("conforms", "refused")):
                 ctx.violation("mirror", f"{rec['task']}: trace of the run with an aliased output "
                                         f"path ({r['spelling']}) violates the protocol at operation "
                                         f"{ans.split()[1]} although the inputs are unchanged",
                               dict(rp, correspondence="Drive/C10.lean Conforms vs traced task",
                                    trace=r["line"][:2000]))
+
+
+def evaluate_templates(ctx, items, answers):
+    """is every recorded trace of a successful run an instance of its task's template
+    (`copy/compress/join/split/tdms_template_conforms` cover every instance)?  A trace that leaves
+    its template is judged by `Conforms` like every other trace: drift is a NOTE, never a verdict."""
+    drift = {}
+    for (task, line), ans in zip(items, answers):
+        w = ans.split()
+        if not w or w[0] == "bad-op" or len(w) < 4:
+            ctx.stat("template:not-evaluated")
+            continue
+        fields = dict(x.split(":") for x in w[1:])
+        if w[0] == "instance":
+            ctx.stat("template:instance:" + task)
+            if fields.get("hyp") == "1" and fields.get("tconf") != "1":
+                raise common.LeanUnavailable("driver C10 contradicts the template theorems: "
+                                             + line[:200])
+        else:
+            ctx.stat("template:drift:" + task)
+            drift.setdefault(task, []).append((line.split()[1], w[0].split(":")[1],
+                                               line.split()[6]))
+    for task, lst in sorted(drift.items()):       # one NOTE per task
+        ctx.note(f"template drift: {len(lst)} recorded trace(s) of {task} leave the template "
+                 f"{lst[0][0]}Trace (first: at operation {lst[0][1]}, parameters {lst[0][2]}); "
+                 f"the traces themselves are judged by Conforms")
 
 
 def evaluate(ctx, rec, pred, verdict, rerun_answers=None):
@@ -801,7 +997,19 @@ def run(ctx):
         relines = sorted({r["rerun"]["line"] for rec in recs for r in rec["results"]
                           if r.get("rerun") and r["rerun"]["line"]})
         alines = sorted({r["line"] for rec in alias_recs for r in rec["results"] if r["line"]})
-        out = ctx.lean("C10", [r["line"] for r in recs] + relines + alines)
+        tlines = {}      # template requests: baseline traces and successful re-runs (distinct ops)
+        for rec in recs:
+            cands = [rec.get("tmpl")] + [(r.get("rerun") or {}).get("tmpl") for r in rec["results"]]
+            for t in cands:
+                if t:
+                    w = t.split()
+                    tlines.setdefault((rec["spec"]["task"],) + tuple(w[:5] + w[6:]), t)
+        tkeys = sorted(tlines)
+        n_main = len(recs) + len(relines) + len(alines)
+        out = ctx.lean("C10", [r["line"] for r in recs] + relines + alines +
+                       [tlines[k] for k in tkeys])
+        evaluate_templates(ctx, [(k[0], tlines[k]) for k in tkeys], out[n_main:])
+        out = out[:n_main]
         alias_answers = dict(zip(alines, out[len(recs) + len(relines):]))
         out = out[:len(recs) + len(relines)]
         for i, line in enumerate(out):
